@@ -5,19 +5,23 @@ from malt.pyct import origin_info
 FILES = ['gen.py', 'converter.py', 'lib.py']
 
 
-def _frames(n, f0, l0, f1, l1, f2, l2, f3, l3):
-  fr = [(FILES[f0], l0), (FILES[f1], l1), (FILES[f2], l2), (FILES[f3], l3)][:n]
+from crosshair.core import deep_realize
+from crosshair.tracers import NoTracing
+
+
+def _frames(bits):
+  """3 frame slots x (2 bits file, 1 bit line); file code 3 = no frame (list ends)."""
+  fr = []
+  for k in range(3):
+    f = int(bits[3 * k]) + 2 * int(bits[3 * k + 1])
+    if f == 3:
+      break
+    fr.append((FILES[f], 1 + int(bits[3 * k + 2])))
   return [(fn, ln, 'fn%d' % i, 'text%d' % i) for i, (fn, ln) in enumerate(fr)]   # outermost first
 
 
-def stack_summary(n: int, f0: int, l0: int, f1: int, l1: int, f2: int, l2: int, f3: int, l3: int,
-                  m1: bool, m2: bool) -> bool:
-  """
-  pre: 0 <= n <= 4 and 0 <= f0 <= 2 and 0 <= f1 <= 2 and 0 <= f2 <= 2 and 0 <= f3 <= 2
-  pre: 1 <= l0 <= 2 and 1 <= l1 <= 2 and 1 <= l2 <= 2 and 1 <= l3 <= 2
-  post: _
-  """
-  tb = _frames(n, f0, l0, f1, l1, f2, l2, f3, l3)
+def _summary(bits, m1, m2):
+  tb = _frames(bits)
   smap = {}
   for ln, on in ((1, m1), (2, m2)):
     if on:
@@ -25,7 +29,6 @@ def stack_summary(n: int, f0: int, l0: int, f1: int, l1: int, f2: int, l2: int, 
       smap[loc] = origin_info.OriginInfo(
           origin_info.Location(filename='user.py', lineno=10 + ln, col_offset=0), 'userfn', 'src%d' % ln, None)
   out = error_utils._stack_trace_inside_mapped_code(tb, smap, 'converter.py')
-  # reference: walk innermost -> outermost
   exp = []
   for fn, ln, name, text in reversed(tb):
     if fn == 'gen.py' and ((ln == 1 and m1) or (ln == 2 and m2)):
@@ -40,16 +43,25 @@ def stack_summary(n: int, f0: int, l0: int, f1: int, l1: int, f2: int, l2: int, 
   return got == exp
 
 
-def reach_twin(n: int, f0: int, m1: bool) -> bool:
+def stack_summary(a0: bool, a1: bool, a2: bool, b0: bool, b1: bool, b2: bool, c0: bool, c1: bool,
+                  c2: bool, m1: bool, m2: bool) -> bool:
   """
-  pre: 0 <= n <= 4 and 0 <= f0 <= 2
   post: _
   """
-  return not (n == 4 and f0 == 2 and m1)
+  v = deep_realize((a0, a1, a2, b0, b1, b2, c0, c1, c2, m1, m2))
+  with NoTracing():
+    return _summary(v[:9], v[9], v[10])
+
+
+def reach_twin(a0: bool, a1: bool, m1: bool) -> bool:
+  """
+  post: _
+  """
+  return not (a0 and a1 and m1)
 
 
 HARNESSES = ['stack_summary']
 
 
 def explain(func, args, kwargs):
-  return 'frames=%r mapped lines=%r' % (_frames(*args[:9]), args[9:])
+  return 'frames=%r mapped lines=%r' % (_frames(args[:9]), args[9:])
